@@ -19,7 +19,7 @@ CHECKS["C04"] = {
     ],
     "min": {"distinct_nontrivial": {"quick": 200, "thorough": 200}, "counters": {"decoded": 1000, "errors": 1000, "sentinel_ok": 1000}},
     "parts": [
-        {"name": "decode", "pkg": "c04_decode", "race": False, "shards": 16},
+        {"name": "decode", "pkg": "c04_decode", "race": False, "shards": 16, "ulimit_v_kb": 6000000},
     ],
 }
 
@@ -162,7 +162,7 @@ CHECKS["C05"] = {
                                 "allocation bound per message: 256*len(frame) + 1 MiB, measured as process-wide TotalAlloc between the cut before and the cut after the message",
                                 "non-termination of a handler would show as the child hitting the wall-clock watchdog (reported inconclusive, never as a pass)"],
     "min": {"distinct_nontrivial": {"quick": 100, "thorough": 100}, "counters": {"messages": 10000, "canary_probes": 500, "disconnected_by_storrent": 500}},
-    "parts": [{"name": "hostile", "pkg": "c05_hostile", "netns": "isolated", "race": False, "shards": 16, "ulimit_v_kb": 6000000, "max_crashes": 40},
+    "parts": [{"name": "hostile", "pkg": "c05_hostile", "netns": "isolated", "race": False, "shards": 16, "ulimit_v_kb": 6000000, "max_crashes": {"quick": 40, "thorough": 4000}},
               {"name": "hostile-race", "pkg": "c05_hostile", "netns": "isolated", "race": True, "shards": 16, "env": {"VERIF_CAP_INDEX": "1"}}],
     "technique": "runtime monitor: crash / termination / per-message allocation bound / blast-radius canaries evaluated at a quiescent cut after every hostile message sent to the real peer and torrent actors; child under RLIMIT_AS; second pass under -race",
     "level_text": "Generated hostile message sequences are sent on the wire to the real decoder->peer actor->torrent loop path in every capability and metadata state; after each message the process must be alive, quiescent, within an allocation bound proportional to the message, and canary peers/torrents must be unaffected. Held on the sequences observed.",
